@@ -923,7 +923,7 @@ fn quiescent_agreement(m: &FMap, prog: &Prog, fin: &BTreeMap<u32, (u32, u64, u64
 
 pub fn ccfg_strategy() -> impl Strategy<Value = CCfg> {
     (
-        prop_oneof![3 => Just(HMode::Identity), 2 => Just(HMode::Const0), 1 => Just(HMode::ConstMax), 2 => Just(HMode::SameBin), 1 => Just(HMode::High), 1 => Just(HMode::Mod4), 2 => Just(HMode::Mix)],
+        prop_oneof![3 => Just(HMode::Identity), 2 => Just(HMode::Const0), 1 => Just(HMode::ConstMax), 2 => Just(HMode::SameBin), 1 => Just(HMode::High), 1 => Just(HMode::Mod4), 2 => Just(HMode::Mix), 1 => Just(HMode::PairBin), 1 => Just(HMode::FewHigh)],
         prop_oneof![2 => Just(0u32), 1 => Just(1u32), 2 => Just(20u32), 3 => Just(42u32), 1 => Just(85u32), 1 => 2u32..40],
         prop_oneof![3 => Just(1u32), 1 => Just(2u32), 1 => Just(8u32), 1 => Just(120u32)],
         prop_oneof![2 => Just(GuardMode::PerOp), 2 => Just(GuardMode::PerThread), 1 => Just(GuardMode::Pin)],
